@@ -167,7 +167,7 @@ def gen_datasheet(rng, valid=True):
             'p_max': rng.choice([16.0, 21.0, 23.0, 25.0, rng.uniform(10, 27)])}
 
 
-def gen_spectrum(rng, f_min, f_max, gain, p_max, one=False):
+def gen_spectrum(rng, f_min, f_max, gain, p_max, one=False, regime=None):
     """[[f, slot, baud, pch, ase_ratio, nli_ratio]], sorted; mostly inside [f_min, f_max], some outside"""
     style = rng.random()
     n_in = 1 if one else rng.choice([2, 2, 3, 5, 8, 16, 30, 48, 76, 96])
@@ -222,7 +222,7 @@ def gen_spectrum(rng, f_min, f_max, gain, p_max, one=False):
     inb = [c for c in chans if c[0] - c[1] / 2 >= f_min and c[0] + c[1] / 2 <= f_max]
     nb = max(1, len(inb))
     # total input power relative to saturation
-    regime = rng.choice(['below', 'below', 'at', 'above', 'above', 'far_below'])
+    regime = regime or rng.choice(['below', 'below', 'at', 'above', 'above', 'far_below'])
     target_tot = {'below': p_max - gain - rng.uniform(0.5, 12), 'at': p_max - gain,
                   'above': p_max - gain + rng.uniform(0.2, 8), 'far_below': p_max - gain - rng.uniform(15, 35)}[regime]
     flat = rng.random() < 0.5
@@ -237,7 +237,8 @@ def gen_spectrum(rng, f_min, f_max, gain, p_max, one=False):
     return out, regime
 
 
-def gen_case(rng, keys, one=False):
+def gen_case(rng, keys, one=False, profile=None):
+    """profile: None | 'above_flatmax' | 'below_gain_min' | 'in_range' (set gain position, far from saturation)"""
     lib = library()
     r = rng.random()
     case = {}
@@ -272,10 +273,17 @@ def gen_case(rng, keys, one=False):
         gmin, gmax = a.gain_min, a.gain_flatmax
         gain = rng.choice([rng.uniform(gmin - 3, gmax + 3), rng.uniform(gmin, gmax), gmin, gmax, gmin - rng.uniform(0, 3),
                            gmax + rng.uniform(0, 3)])
+        if profile == 'above_flatmax':
+            gain = gmax + rng.uniform(0.2, 3)
+        elif profile == 'below_gain_min':
+            gain = gmin - rng.uniform(0.2, 3)
+        elif profile == 'in_range':
+            gain = rng.uniform(gmin, gmax)
         tilt = rng.choice([0.0, 0.0, rng.uniform(-3, 3), rng.uniform(-1, 1)])
         ops.append({'gain_target': gain, 'tilt_target': tilt, 'out_voa': rng.choice([0.0, 0.0, rng.uniform(0, 3)]),
                     'in_voa': rng.choice([0.0, 0.0, None, rng.uniform(0, 2)])})
-        c, reg = gen_spectrum(rng, a.f_min, a.f_max, gain, a.p_max, one=one and a is subs[0])
+        c, reg = gen_spectrum(rng, a.f_min, a.f_max, gain, a.p_max, one=one and a is subs[0],
+                              regime='far_below' if profile else None)
         chans += c
         regimes.append(reg)
     chans = sorted(chans, key=lambda c: c[0])
@@ -768,15 +776,18 @@ def run(ctx):
     if ctx.replay:
         cases = [json.load(open(ctx.replay))['case']]
     else:
-        n = ctx.scale(240, 3000)
+        n = ctx.scale(340, 3000)
         # every library entry at least once, then random
-        for k in keys:
-            c = None
-            while c is None:
-                c = gen_case(rng, [k])
-                if c and 'custom' in c['amp']:
-                    c = None
-            cases.append(c)
+        # plus one case with the set gain above the flat range / below the minimum / inside, far from saturation,
+        # so that every NF model is exercised on both sides of its gain range without the clamp interfering
+        for kk, k in enumerate(keys):
+            for profile in (None, ('above_flatmax', 'below_gain_min', 'in_range')[(kk + ctx.seed) % 3]):
+                c = None
+                while c is None:
+                    c = gen_case(rng, [k], profile=profile)
+                    if c and ('custom' in c['amp'] or 'genlib' in c['amp']):
+                        c = None
+                cases.append(c)
         rippled = [k for k in keys if lib[k][0].type_def != 'multi_band'
                    and (numpy.size(lib[k][0].gain_ripple) > 1 or numpy.size(lib[k][0].nf_ripple) > 1)]
         for _ in range(ctx.scale(40, 500)):
